@@ -74,8 +74,9 @@ class C01(Prop):
 
         import accfg_links as al
         for i in range(20 if tier == "quick" else 300):
-            # loops that already carry a state they only pass through (see C07)
-            yield {"kind": "dedup", "src": al.passthrough_program(random.Random(rng.getrandbits(48))), "xseed": rng.getrandbits(32)}
+            # loops that already carry a state they only pass through (see C07); full-field setups, like every C01 program: a
+            # launch that runs before some field was ever written observes an unspecified register, outside the quantifier
+            yield {"kind": "dedup", "src": al.passthrough_program(random.Random(rng.getrandbits(48)), full=True), "xseed": rng.getrandbits(32)}
 
     def extra_search_cases(self, rng, tier):
         while True:
